@@ -293,7 +293,10 @@ Definition base_shoot (c : base_cfg) (invalid_ammo : bool) (r : response) : shot
        | Some false => Returned []                                        (* "Connect fail": return, nothing reported *)
        | _ =>
            if invalid_ammo then Returned [{| sm_code := 0; sm_err := false |}]
-           else if bc_http2 c && negb (rs_h2 r) then ShotPanic []          (* documented fatal: target without HTTP/2 *)
+           else if bc_http2 c && negb (rs_h2 r) && conn_ok (rs_conn r) then
+             (* documented fatal: the target is reached but does not negotiate HTTP/2 (ALPN alert or checkHTTP2):
+                panicOnHTTP1Client.Do panics inside Client.Do; the deferred Report still runs while unwinding *)
+             ShotPanic [{| sm_code := 0; sm_err := false |}]
            else if negb (conn_ok (rs_conn r)) then
              Returned [{| sm_code := 0; sm_err := true |}]                (* deferred SetErr + Report *)
            else
